@@ -66,6 +66,32 @@ fn token_text(line: Option<&str>, col: u32) -> Text {
     Text::Unspecified
 }
 
+/// the readings of a token that the property allows: one for a token on a character boundary;
+/// for a column inside a surrogate pair either neighbouring boundary (the character covering
+/// the column, or the text after it); None where nothing is asserted (whitespace). A token inside
+/// a pair never changes what the *other* tokens of the line read.
+fn token_texts(line: Option<&str>, col: u32) -> Option<Vec<Option<String>>> {
+    let mid_pair = line.is_some_and(|line| {
+        let mut unit = 0u32;
+        for ch in line.chars() {
+            if unit >= col {
+                break;
+            }
+            unit += ch.len_utf16() as u32;
+        }
+        unit > col
+    });
+    let one = |c: u32| match token_text(line, c) {
+        Text::Known(x) => Some(x),
+        Text::Unspecified => None,
+    };
+    if mid_pair {
+        let (a, b) = (one(col - 1)?, one(col + 1)?);
+        return Some(if a == b { vec![a] } else { vec![a, b] });
+    }
+    Some(vec![one(col)?])
+}
+
 #[derive(Clone, Debug, Serialize, Deserialize)]
 struct Case {
     program: String,
@@ -111,20 +137,16 @@ fn rfuncname(c: &Case, q: &(u32, u32, String)) -> Option<Option<String>> {
     if pos.windows(2).any(|w| w[0] == w[1]) {
         return None;
     }
-    let text = |i: usize| token_text(lines.get(toks[i].0 as usize).copied(), toks[i].1);
+    let text = |i: usize| token_texts(lines.get(toks[i].0 as usize).copied(), toks[i].1);
+    let must = |t: &Option<Vec<Option<String>>>, s: &str| t.as_ref().is_some_and(|v| v.iter().all(|x| x.as_deref() == Some(s)));
+    let could = |t: &Option<Vec<Option<String>>>, s: &str| t.as_ref().is_none_or(|v| v.iter().any(|x| x.as_deref() == Some(s)));
     let mut rank = 1usize; // the looked-up token is the first one visited
     let mut i = start as isize;
     while i >= 0 {
         let t = text(i as usize);
-        if t == Text::Unspecified {
-            return None;
-        }
-        if t == Text::Known(Some(q.2.clone())) && i > 0 {
+        if could(&t, &q.2) && i > 0 {
             let p = text(i as usize - 1);
-            if p == Text::Unspecified {
-                return None;
-            }
-            if p == Text::Known(Some("function".into())) {
+            if must(&t, &q.2) && must(&p, "function") {
                 // the pair is (rank, rank + 1); must be found when rank <= 126, must not be
                 // when rank >= 128; rank 127 is not asserted (DESIGN 3.3)
                 return if rank <= 126 {
@@ -135,6 +157,10 @@ fn rfuncname(c: &Case, q: &(u32, u32, String)) -> Option<Option<String>> {
                 } else {
                     None
                 };
+            }
+            // a pair that exists under one reading of an unaligned token and not under another
+            if could(&p, "function") {
+                return None;
             }
         }
         i -= 1;
@@ -352,6 +378,60 @@ pub fn run(run: &mut Run) -> Finish {
             }
         }
     });
+    // slice 5: tokens inside surrogate pairs next to tokens that sit exactly on the declarations
+    let st5 = statements(&small);
+    let ns5 = st5.len() as u64;
+    let n5 = n_seq_upto(ns5, 2) - 1;
+    let max5 = tier.pick(3usize, 4);
+    run.par_slice("unaligned tokens: programs of 1..2 statements over {a, é, a𝒜} + the string statement, every subset of <= 3/4 columns from (candidate columns + every column inside a surrogate pair) that contains an unaligned one; the aligned tokens must be read exactly as without it", 5, n5, |idx, l| {
+        let picks = seq_upto_unrank(ns5, 2, (idx & ((1 << 40) - 1)) + 1);
+        let mut sub = 0u64;
+        let qn = query_names(&small);
+        for breaks in 0..(1u64 << (picks.len() - 1)) {
+            let p = program_of(&st5, &picks, breaks);
+            let mut cands = candidate_columns(&p);
+            let n_aligned = cands.len();
+            for (li, line) in rlines(&p).iter().enumerate() {
+                let mut unit = 0u32;
+                for ch in line.chars() {
+                    if ch.len_utf16() == 2 {
+                        cands.push((li as u32, unit + 1));
+                    }
+                    unit += ch.len_utf16() as u32;
+                }
+            }
+            if cands.len() == n_aligned {
+                continue;
+            }
+            for k in 1..=max5.min(cands.len()) {
+                for subset in subsets_k(cands.len(), k) {
+                    if !subset.iter().any(|&ci| ci >= n_aligned) {
+                        continue;
+                    }
+                    let mut tokens: Vec<(u32, u32, Option<String>)> = subset.iter().map(|&ci| (cands[ci].0, cands[ci].1, None)).collect();
+                    tokens.sort();
+                    for (i, t) in tokens.iter_mut().enumerate() {
+                        t.2 = if i % 3 == 2 { None } else { Some(format!("orig{i}")) };
+                    }
+                    let mut queries = vec![];
+                    for t in &tokens {
+                        for n in &qn {
+                            queries.push((t.0, t.1, n.clone()));
+                            queries.push((t.0, t.1 + 1, n.clone()));
+                        }
+                    }
+                    let c = Case { program: p.clone(), tokens, queries, assert_results: true };
+                    if let Some((sig, what)) = check_case(&c) {
+                        l.violation_sub(idx, sub, Viol::new(format!("C17/unaligned-token/{}", sig.replace("resolution/", "")), what, json!({"case": serde_json::to_value(&c).unwrap(), "unaligned": true})));
+                    }
+                    sub += 1;
+                    let has_pair = c.queries.iter().any(|q| matches!(rfuncname(&c, q), Some(Some(_))));
+                    let asserted = c.queries.iter().filter(|q| rfuncname(&c, q).is_some()).count() * 4 / c.queries.len();
+                    l.case(has_pair, h64(&("unaligned", k, p.contains('\n'), has_pair, asserted)));
+                }
+            }
+        }
+    });
     // slice 4: the 128-token window
     let dists: Vec<usize> = (118..=134).collect();
     let wnames = ["f".to_string(), "é".to_string()];
@@ -379,7 +459,7 @@ pub fn run(run: &mut Run) -> Finish {
     });
     Finish {
         level: "exploration",
-        rule: "E1: minified programs generated from a statement grammar (function declarations, var statements, calls, a non-ASCII string literal; names a, ab, é, a𝒜 (astral), $_, a<ZWJ>b; 1-3 statements, every line-break placement), with every subset of <= 4 tokens placed on identifier starts, keywords, '(' and at / past the end of each line and on a missing line and original names attached to two of every three tokens; every token position and its successor column x every pool name + non-identifiers, through SourceMap, SourceMapIndex, SourceView, DecodedMap and a fresh view. Oracle RFuncName: nothing if the name is not an identifier; walk back from the looked-up token, token text = identifier at the token's UTF-16 column, first token whose text is the name and whose predecessor's text is 'function' yields its original name. Unaligned columns (mid-pair, whitespace, past the end, missing lines): crash-freedom only, every column. Window: name-token rank <= 126 must resolve, >= 128 must not, 127 not asserted. Distinct by construction; non-trivial = the program/map/queries contain a resolvable function pair.".into(),
+        rule: "E1: minified programs generated from a statement grammar (function declarations, var statements, calls, a non-ASCII string literal; names a, ab, é, a𝒜 (astral), $_, a<ZWJ>b; 1-3 statements, every line-break placement), with every subset of <= 4 tokens placed on identifier starts, keywords, '(' and at / past the end of each line and on a missing line and original names attached to two of every three tokens; every token position and its successor column x every pool name + non-identifiers, through SourceMap, SourceMapIndex, SourceView, DecodedMap and a fresh view. Oracle RFuncName: nothing if the name is not an identifier; walk back from the looked-up token, token text = identifier at the token's UTF-16 column, first token whose text is the name and whose predecessor's text is 'function' yields its original name. A token whose column lies inside a surrogate pair may read as either neighbouring boundary, but must not change what aligned tokens of the line read (slice 5: every such column next to tokens on the declarations). Whitespace columns: crash-freedom only, every column. Window: name-token rank <= 126 must resolve, >= 128 must not, 127 not asserted. Distinct by construction; non-trivial = the program/map/queries contain a resolvable function pair.".into(),
         assumptions: vec!["identifier classification of the model is exact for the characters used (ASCII, é, 𝒜, $, _, ZWJ, ZWNJ)".into(), "maps with several tokens at one position are not asserted (iteration order among them is unspecified)".into()],
         coverage_extra: json!({"names": names_pool()}),
     }
@@ -388,6 +468,11 @@ pub fn run(run: &mut Run) -> Finish {
 pub fn recheck(case: &Value) -> Vec<Viol> {
     let Ok(c) = serde_json::from_value::<Case>(case["case"].clone()) else { return vec![] };
     let mut v: Vec<Viol> = check_case(&c).map(|(s, w)| Viol::new(format!("C17/{s}"), w, case.clone())).into_iter().collect();
+    if case["unaligned"] == json!(true) {
+        for x in v.iter_mut() {
+            x.sig = x.sig.replacen("C17/resolution/", "C17/unaligned-token/", 1).replacen("C17/panic", "C17/unaligned-token/panic", 1).replacen("C17/entry", "C17/unaligned-token/entry", 1);
+        }
+    }
     // window cases carry a prefixed signature
     if c.tokens.len() > 100 {
         let rank = c.tokens.len() - 2 + 1;
